@@ -82,13 +82,19 @@ type vfC06Relay struct {
 	ReadBuf   int    `json:"read_buf"`
 	LateRdMs  int    `json:"late_reader_ms"` // fast open only: the client starts reading this late
 	StartMs   int    `json:"start_ms"`
-	GateMs    int    `json:"dial_gate_ms,omitempty"` // the fake Outbound.TCP takes this long (virtual) to answer: a slow dial
-	TimedRd   int    `json:"timed_reads,omitempty"`  // fast open: this many Reads with a deadline that expires while the server is still dialling
-	AddrLen   int    `json:"addr_len,omitempty"`     // requested address is padded to exactly this many bytes (0 = natural)
-	MsgLen    int    `json:"msg_len,omitempty"`      // dial_fail: the outbound's error text is padded to exactly this many bytes
-	Round     int    `json:"round,omitempty"`        // churn worlds: relays of round r start when round r-1 is over
-	Role      string `json:"role,omitempty"`         // churn worlds: "A" ends one direction early, "B" starts in A's teardown window
-	Seed      int64  `json:"seed"`
+	// hooked worlds: the server's RequestHook intercepts this request (Check true => the server accepts the
+	// stream up front, then calls hook.TCP): "none" returns at once, "peek" reads up to HookPeek bytes of the
+	// client's payload and hands them back as putback, "rewrite" also rewrites the request address, "err"
+	// refuses after peeking. Modes hook_dial_fail / hook_err: no target ever exists.
+	Hook     string `json:"hook,omitempty"`
+	HookPeek int    `json:"hook_peek,omitempty"`
+	GateMs   int    `json:"dial_gate_ms,omitempty"` // the fake Outbound.TCP takes this long (virtual) to answer: a slow dial
+	TimedRd  int    `json:"timed_reads,omitempty"`  // fast open: this many Reads with a deadline that expires while the server is still dialling
+	AddrLen  int    `json:"addr_len,omitempty"`     // requested address is padded to exactly this many bytes (0 = natural)
+	MsgLen   int    `json:"msg_len,omitempty"`      // dial_fail: the outbound's error text is padded to exactly this many bytes
+	Round    int    `json:"round,omitempty"`        // churn worlds: relays of round r start when round r-1 is over
+	Role     string `json:"role,omitempty"`         // churn worlds: "A" ends one direction early, "B" starts in A's teardown window
+	Seed     int64  `json:"seed"`
 }
 
 type vfC06User struct {
@@ -368,6 +374,64 @@ func vfC06Pad(prefix, suffix string, n int, fill byte) string {
 		return prefix + strings.Repeat(string(fill), k) + suffix
 	}
 	return prefix + suffix
+}
+
+// vfC06GenHooked builds a world whose server has a RequestHook that intercepts every relay of the world.
+// Relays 0..2 are fixed (refused dial without fast open, slow-then-refused dial with fast open, hook error),
+// the rest is drawn: hook behaviour x {dial ok, slow dial ok, refused, slow then refused, hook error} x
+// {quiesce, c_close_idle, t_close_idle} x fast open. The accounting clause does not cover hooked
+// connections (the statement excludes them); stream oracles do: what the client application reads is a
+// prefix of what the target wrote -- nothing at all when no target ever existed -- and what the target
+// gets (putback first) is a prefix of what the client wrote, complete in shapes (i)/(ii).
+func vfC06GenHooked(k *vfKit, caseID string) vfC06Case {
+	r := k.Rand(caseID)
+	c := vfC06Case{CaseID: caseID, Kind: "hooked", Salt: r.Uint64(), LatencyMs: 1 + r.Intn(30), Logger: r.Intn(2) == 0}
+	hooks := []string{"none", "peek", "rewrite", "peek"}
+	n := 5 + r.Intn(3)
+	for i := 0; i < n; i++ {
+		fo := r.Intn(2) == 0
+		rl := vfC06Relay{Idx: i, User: i, Seed: r.Int63(), Hook: hooks[r.Intn(len(hooks))], HookPeek: 1 + r.Intn(600),
+			UpChunk: 1 + r.Intn(4000), DownChunk: 1 + r.Intn(4000), ReadBuf: 1 + r.Intn(16<<10), StartMs: r.Intn(40)}
+		x := r.Intn(10)
+		switch {
+		case i == 0:
+			fo, x = false, 0
+		case i == 1:
+			fo, x = true, 1
+		case i == 2:
+			x = 2
+		}
+		switch {
+		case x == 0: // refused
+			rl.Mode, rl.Up = "hook_dial_fail", r.Intn(3000)
+		case x == 1: // slow, then refused
+			rl.Mode, rl.Up, rl.GateMs = "hook_dial_fail", r.Intn(3000), 50+r.Intn(400)
+		case x == 2: // the hook itself refuses
+			rl.Mode, rl.Up, rl.Hook = "hook_err", r.Intn(3000), "err"
+		default:
+			rl.Mode = []string{"quiesce", "c_close_idle", "t_close_idle"}[r.Intn(3)]
+			rl.Up, rl.Down = vfC06Size(r, 200_000), vfC06Size(r, 200_000)
+			switch rl.Mode {
+			case "c_close_idle":
+				rl.Down = 0
+			case "t_close_idle":
+				rl.Up = 0
+			}
+			rl.UpChunk, rl.DownChunk = vfC06Chunk(r, rl.Up), vfC06Chunk(r, rl.Down)
+			if lo := rl.Down / 300; rl.ReadBuf < lo {
+				rl.ReadBuf = lo + 1
+			}
+			if r.Intn(3) == 0 {
+				rl.GateMs = 50 + r.Intn(400)
+			}
+		}
+		if fo && rl.GateMs > 0 {
+			rl.TimedRd = r.Intn(3)
+		}
+		c.Users = append(c.Users, vfC06User{Idx: i, FastOpen: fo, Relays: []int{i}})
+		c.Relays = append(c.Relays, rl)
+	}
+	return c
 }
 
 // vfC06GenChurn builds a "buffer churn" world: rounds back to back on ONE server. In every round relay A
@@ -662,6 +726,45 @@ func (e *vfC06Events) TCPError(addr net.Addr, id, reqAddr string, err error) {
 	}
 }
 
+// vfC06Hook is the server's RequestHook in hooked worlds.
+type vfC06Hook struct{ run *vfC06Run }
+
+func (h *vfC06Hook) Check(isUDP bool, reqAddr string) bool {
+	rs := h.run.byAddr[reqAddr]
+	return !isUDP && rs != nil && rs.sp.Hook != ""
+}
+
+func (h *vfC06Hook) UDP(data []byte, reqAddr *string) error { return nil }
+
+func (h *vfC06Hook) TCP(stream server.HyStream, reqAddr *string) ([]byte, error) {
+	rs := h.run.byAddr[*reqAddr]
+	if rs == nil {
+		return nil, nil
+	}
+	rs.log.AddT("hook_tcp", rs.key, 0, time.Now().UnixNano(), map[string]any{"hook": rs.sp.Hook})
+	var got []byte
+	if rs.sp.Hook != "none" {
+		// like a sniffer: look at the first bytes the client sends, give up after a while
+		_ = stream.SetReadDeadline(time.Now().Add(2 * time.Second))
+		buf := make([]byte, rs.sp.HookPeek)
+		for len(got) < len(buf) {
+			n, err := stream.Read(buf[len(got):])
+			got = buf[:len(got)+n]
+			if err != nil {
+				break
+			}
+		}
+		_ = stream.SetReadDeadline(time.Time{})
+	}
+	switch rs.sp.Hook {
+	case "err":
+		return nil, errors.New("vfC06 hook refuses " + rs.key)
+	case "rewrite":
+		*reqAddr = "hooked." + rs.addr
+	}
+	return got, nil
+}
+
 // vfC06Group replaces sync.WaitGroup inside bubbles. With go1.25.0 a WaitGroup.Wait inside a
 // bubble is occasionally NOT treated as durably blocking (seen in goroutine dumps as
 // "[sync.WaitGroup.Wait, synctest bubble N]" without "(durable)"), which freezes the bubble's
@@ -840,7 +943,7 @@ func (run *vfC06Run) onTCP(addr string) (net.Conn, error) {
 	if first && rs.sp.GateMs > 0 {
 		time.Sleep(time.Duration(rs.sp.GateMs) * time.Millisecond) // the dial takes a while
 	}
-	if rs.sp.Mode == "dial_fail" {
+	if rs.sp.Mode == "dial_fail" || rs.sp.Mode == "hook_dial_fail" {
 		return nil, errors.New(rs.dialMsg)
 	}
 	if !first {
@@ -1083,6 +1186,19 @@ func (run *vfC06Run) drive(rs *vfC06RS) {
 			wg.Wait()
 		}
 		run.closeClient(rs)
+	case "hook_dial_fail", "hook_err":
+		// the server accepted the stream up front (hook), then the dial fails / the hook refuses: the client
+		// may write, nothing may ever come back, and the stream must end
+		wg.Go(func() { run.write(rs, vfC06Up, conn, 0, int64(sp.Up), rUp, -1) })
+		res := run.wait(u, rs.readerDone)
+		rs.mu.Lock()
+		rs.compl[vfC06Down] = res
+		rs.mu.Unlock()
+		if !wg.WaitFor(60 * time.Second) {
+			_ = conn.SetWriteDeadline(time.Unix(1, 0))
+			wg.Wait()
+		}
+		run.closeClient(rs)
 	case "t_error":
 		wg.Go(func() { run.write(rs, vfC06Up, conn, 0, int64(sp.Up), rUp, -1) })
 		wg.Go(func() {
@@ -1191,6 +1307,9 @@ func vfC06RunCase(t *testing.T, k *vfKit, c vfC06Case) {
 					tl = &vfC06Traffic{vfTraffic: &vfTraffic{}}
 					sc.TrafficLogger = tl
 				}
+				if c.Kind == "hooked" {
+					sc.RequestHook = &vfC06Hook{run: run}
+				}
 				if c.Kind == "churn" && sc.EventLogger != nil {
 					sc.EventLogger = &vfC06Events{EventLogger: sc.EventLogger, run: run}
 				}
@@ -1227,6 +1346,9 @@ func vfC06RunCase(t *testing.T, k *vfKit, c vfC06Case) {
 			}
 			run.relays = append(run.relays, rs)
 			run.byAddr[rs.addr] = rs
+			if sp.Hook == "rewrite" {
+				run.byAddr["hooked."+rs.addr] = rs
+			}
 		}
 		if c.Kind == "churn" { // wire the rounds: A(r) waits for round r-1, B(r,*) wait for A(r)'s teardown window
 			var prev *vfC06RS
@@ -1375,8 +1497,12 @@ func vfC06Judge(k *vfKit, run *vfC06Run, evs []vfEvent) {
 	}
 	tail := func(i int) []vfEvent { return evs[max(0, i-10):min(len(evs), i+2)] }
 	relayUser := map[string]int{}
+	hookedUser := map[int]bool{} // the accounting clause only covers connections no request hook intercepts
 	for _, rs := range run.relays {
 		relayUser[rs.key] = rs.sp.User
+		if rs.sp.Hook != "" {
+			hookedUser[rs.sp.User] = true
+		}
 	}
 	acct := make([]*vfC06Acct, len(run.users))
 	for i := range acct {
@@ -1427,7 +1553,7 @@ func vfC06Judge(k *vfKit, run *vfC06Run, evs []vfEvent) {
 			}
 			a := acct[ui]
 			a.fwd[d] += e.N
-			if c.Logger && a.fwd[d] > a.approved[d] && !a.flagged[d] {
+			if c.Logger && !hookedUser[ui] && a.fwd[d] > a.approved[d] && !a.flagged[d] {
 				a.flagged[d] = true
 				what := "written to the target"
 				if d == vfC06Down {
@@ -1480,6 +1606,27 @@ func vfC06Judge(k *vfKit, run *vfC06Run, evs []vfEvent) {
 			}
 			k.Violation(key, rrep(map[string]any{"addr_len": len(rs.addr), "addr": rs.addr}),
 				"relay %d: Client.TCP(address of %d bytes) did not return within %s of virtual time although %s", sp.Idx, len(rs.addr), vfC06WaitCap, what)
+			rs.mu.Unlock()
+			continue
+		}
+		if sp.Hook != "" {
+			k.Count("ev_hooked_relays", 1)
+		}
+		if sp.Mode == "hook_dial_fail" || sp.Mode == "hook_err" {
+			// no target ever existed: the client application must not read a single byte
+			k.Count("ev_hooked_no_target_cases", 1)
+			switch {
+			case rs.got[vfC06Down] != 0 || rs.srvTook != 0:
+				k.Violation("dial:relayed-after-failed-dial", rrep(map[string]any{"hook": sp.Hook, "first_bytes_mismatch": rs.bad[vfC06Down]}),
+					"relay %d (%s, request intercepted by the hook, no target ever existed): the client application read %d bytes that no target sent (%s)", sp.Idx, sp.Mode, rs.got[vfC06Down], rs.bad[vfC06Down])
+			case rs.got[vfC06Up] != 0:
+				k.Violation("dial:relayed-after-failed-dial", rrep(nil), "relay %d (%s): %d bytes reached a target although none was dialled", sp.Idx, sp.Mode, rs.got[vfC06Up])
+			default:
+				k.Count("ev_hooked_nothing_relayed", 1)
+				if rs.compl[vfC06Down] != "ok" {
+					k.Count("hooked_no_target_stream_not_ended", 1)
+				}
+			}
 			rs.mu.Unlock()
 			continue
 		}
@@ -1574,7 +1721,10 @@ func vfC06Judge(k *vfKit, run *vfC06Run, evs []vfEvent) {
 		fired, probed, probeOK, probeErr := u.vetoFired, u.probed, u.probeOK, u.probeErr
 		u.mu.Unlock()
 		nrel := len(u.sp.Relays)
-		if c.Logger {
+		if c.Logger && hookedUser[ui] {
+			k.Count("accounting_skipped_hooked", 1)
+		}
+		if c.Logger && !hookedUser[ui] {
 			for d := 0; d < 2; d++ {
 				// one chunk per stream may be in flight (handed to the logger, not forwarded) at teardown
 				var bound int64
@@ -1665,7 +1815,7 @@ var vfC06StuckOnce sync.Once
 
 func vfC06Sig(c *vfC06Case, rl *vfC06Relay) string {
 	u := c.Users[rl.User]
-	return fmt.Sprintf("%d|%d|%d|%d|%s|%d|%d|%d|%d|%d|%d|%d|%v|%v|%d|%d|%d|%d", rl.GateMs, rl.TimedRd, rl.AddrLen, rl.MsgLen, rl.Mode, rl.Up, rl.Down, rl.Pre, rl.UpChunk, rl.DownChunk, rl.CutAt, rl.ReadBuf,
+	return fmt.Sprintf("%s|%d|%d|%d|%d|%d|%s|%d|%d|%d|%d|%d|%d|%d|%v|%v|%d|%d|%d|%d", rl.Hook, rl.HookPeek, rl.GateMs, rl.TimedRd, rl.AddrLen, rl.MsgLen, rl.Mode, rl.Up, rl.Down, rl.Pre, rl.UpChunk, rl.DownChunk, rl.CutAt, rl.ReadBuf,
 		u.FastOpen, c.Logger, u.VetoAt, len(u.Relays), c.LatencyMs, c.LossPct)
 }
 
@@ -1748,6 +1898,18 @@ func TestVerifC06Boundary(t *testing.T) {
 	cases := []vfC06Case{vfC06GenBoundary(k, "c06b-0", false), vfC06GenBoundary(k, "c06b-1", true)}
 	for i := 2; i < k.N(2, 16); i++ {
 		cases = append(cases, vfC06GenBoundary(k, fmt.Sprintf("c06b-%d", i), i%2 == 1))
+	}
+	vfC06RunAll(t, k, cases)
+}
+
+// TestVerifC06Hooked: worlds whose server has a RequestHook intercepting the relays (see vfC06GenHooked).
+func TestVerifC06Hooked(t *testing.T) {
+	k := vfNewKit(t, "C06", vfC06Part("c06-hooked"))
+	defer k.Finish()
+	n := k.N(4, 40)
+	var cases []vfC06Case
+	for i := 0; i < n; i++ {
+		cases = append(cases, vfC06GenHooked(k, fmt.Sprintf("c06h-%d", i)))
 	}
 	vfC06RunAll(t, k, cases)
 }
